@@ -29,12 +29,16 @@ func kindIn(pre *State, db int, key string) string {
 
 // abstractCmd renders a command with key arguments replaced by the kind of the key in the pre-state.
 func abstractCmd(pre *State, db int, args []string) string {
+	return abstractCmdKeys(pre, db, args, universeKeys)
+}
+
+func abstractCmdKeys(pre *State, db int, args []string, keys map[string]bool) string {
 	out := make([]string, len(args))
 	for i, a := range args {
 		switch {
 		case i == 0:
 			out[i] = strings.ToUpper(a)
-		case universeKeys[a]:
+		case keys[a]:
 			out[i] = "<" + kindIn(pre, db, a) + ">"
 		default:
 			out[i] = fmt.Sprintf("%q", a)
